@@ -12,7 +12,6 @@ import (
 	"golang.org/x/tools/go/ssa"
 )
 
-
 func checkC31(c *Ctx) (string, []string) {
 	A := "internal/accumulation."
 
@@ -138,7 +137,9 @@ func checkC31(c *Ctx) (string, []string) {
 		c.checkShapes("C31.availability", saPkg+".HistoricalLookup · key", hl, lk, map[string][]string{"Hash": {"p2"}, "Length": {"u32(len(p0.PreimageLookup[p2]))"}})
 		// blob returned only behind exists ∧ valid
 		ex := condEdges(hl, func(v ssa.Value) (bool, bool) { return exprStr(v, shapeOpts) == "p0.PreimageLookup[p2]#1", true })
-		vt := condEdges(hl, func(v ssa.Value) (bool, bool) { return strings.HasPrefix(exprStr(v, shapeOpts), saPkg+".isValidTime("), true })
+		vt := condEdges(hl, func(v ssa.Value) (bool, bool) {
+			return strings.HasPrefix(exprStr(v, shapeOpts), saPkg+".isValidTime("), true
+		})
 		ok := len(ex) == 1 && len(vt) == 1
 		allInstrs(hl, func(in ssa.Instruction) {
 			if r, isR := in.(*ssa.Return); isR {
@@ -170,7 +171,9 @@ func checkC31(c *Ctx) (string, []string) {
 		})
 		ok := sortCall != nil && sipCall != nil
 		if ok {
-			pass := condEdges(vpe, func(v ssa.Value) (bool, bool) { return exprStr(v, shapeOpts) == "("+A+"validateSortUnique(p0) != nil)", false })
+			pass := condEdges(vpe, func(v ssa.Value) (bool, bool) {
+				return exprStr(v, shapeOpts) == "("+A+"validateSortUnique(p0) != nil)", false
+			})
 			ok = len(pass) == 1 && guardedBy(vpe, sipCall, pass)
 			retOK := false
 			allInstrs(vpe, func(in ssa.Instruction) {
@@ -190,7 +193,9 @@ func checkC31(c *Ctx) (string, []string) {
 			args = strings.Join(as, ", ")
 		}
 		c.Check(args == "p1, p0[*].Requester, hash.Blake2bHash(p0[*].Blob), u32(len(p0[*].Blob)), p2, false", "C31.admission", A+"ValidatePreimageExtrinsics · solicitation check", vpe.Pos(), "ShouldIntegratePreimage(δ, requester, H(blob), |blob|)", "solicitation is checked with ("+args+")")
-		need := condEdges(vpe, func(v ssa.Value) (bool, bool) { return strings.HasPrefix(exprStr(v, shapeOpts), A+"ShouldIntegratePreimage("), false })
+		need := condEdges(vpe, func(v ssa.Value) (bool, bool) {
+			return strings.HasPrefix(exprStr(v, shapeOpts), A+"ShouldIntegratePreimage("), false
+		})
 		okU := len(need) == 1
 		allInstrs(vpe, func(in ssa.Instruction) {
 			if r, isR := in.(*ssa.Return); isR && abbr(exprStr(r.Results[0], shapeOpts)) == "cell(0)" && !guardedBy(vpe, r, need) {
@@ -251,9 +256,15 @@ func checkC31(c *Ctx) (string, []string) {
 	c.Rule("C31.host-account", "the refine host call historical_lookup reads the calling service's own account only when ω7 = 2^64−1 (and the account exists), the account named by ω7 when that exists, and no account otherwise (GP B.8); the lookup is made at the refinement's anchor slot for the hash read from guest memory", 2)
 	if hcl := c.Fn("PVM", "historicalLookup"); hcl != nil {
 		st := "*cell(p0).Addition.GeneralArgs.ServiceAccountState"
-		selfE := condEdges(hcl, func(v ssa.Value) (bool, bool) { return exprStr(v, shapeOpts) == st+"[*cell(p0).Addition.GeneralArgs.ServiceID]#1", true })
-		maxE := condEdges(hcl, func(v ssa.Value) (bool, bool) { return exprStr(v, shapeOpts) == "(18446744073709551615 == cell(p0).VM.Registers[7])", true })
-		otherE := condEdges(hcl, func(v ssa.Value) (bool, bool) { return exprStr(v, shapeOpts) == st+"[u32(cell(p0).VM.Registers[7])]#1", true })
+		selfE := condEdges(hcl, func(v ssa.Value) (bool, bool) {
+			return exprStr(v, shapeOpts) == st+"[*cell(p0).Addition.GeneralArgs.ServiceID]#1", true
+		})
+		maxE := condEdges(hcl, func(v ssa.Value) (bool, bool) {
+			return exprStr(v, shapeOpts) == "(18446744073709551615 == cell(p0).VM.Registers[7])", true
+		})
+		otherE := condEdges(hcl, func(v ssa.Value) (bool, bool) {
+			return exprStr(v, shapeOpts) == st+"[u32(cell(p0).VM.Registers[7])]#1", true
+		})
 		var acct *ssa.Phi
 		allInstrs(hcl, func(in ssa.Instruction) {
 			if ph, ok := in.(*ssa.Phi); ok && strings.Contains(typeStr(ph.Type()), "ServiceAccount") && acct == nil {
@@ -283,8 +294,12 @@ func checkC31(c *Ctx) (string, []string) {
 			}
 		}
 		c.Check(ok, "C31.host-account", "PVM.historicalLookup · account selection", hcl.Pos(), "self only behind ω7 = 2^64−1 ∧ exists; named account behind exists; none otherwise", why)
-		args := callArgShapes(hcl, func(ci ssa.CallInstruction) bool { return calleeFunc(ci) != nil && calleeFunc(ci).Name() == "HistoricalLookup" }, 1)
-		args2 := callArgShapes(hcl, func(ci ssa.CallInstruction) bool { return calleeFunc(ci) != nil && calleeFunc(ci).Name() == "HistoricalLookup" }, 2)
+		args := callArgShapes(hcl, func(ci ssa.CallInstruction) bool {
+			return calleeFunc(ci) != nil && calleeFunc(ci).Name() == "HistoricalLookup"
+		}, 1)
+		args2 := callArgShapes(hcl, func(ci ssa.CallInstruction) bool {
+			return calleeFunc(ci) != nil && calleeFunc(ci).Name() == "HistoricalLookup"
+		}, 2)
 		c.Check(len(args) == 1 && args[0] == "cell(p0).Addition.RefineArgs.TimeSlot" && len(args2) == 1 && args2[0] == "*(*PVM.Memory).Read(cell(p0).VM.Memory, cell(p0).VM.Registers[8], 32)", "C31.host-account", "PVM.historicalLookup · lookup arguments", hcl.Pos(), "Λ(a, refinement anchor slot, hash read from ω8)", fmt.Sprintf("HistoricalLookup called with time %v and hash %v", args, args2))
 	}
 	_ = token.ADD
